@@ -7,29 +7,29 @@ import Irc.InvProofs.RegistrationLemmas
 
 namespace Irc
 
-open Reply
+open Reply Reg
 
 /-! ### handlers that only write replies -/
 
-theorem sendIsupport_w (cfg : Cfg) (client : Str) (x : Ctx) : (sendIsupport cfg client x).w = x.w := by
+theorem Reg.sendIsupport_w (cfg : Cfg) (client : Str) (x : Ctx) : (sendIsupport cfg client x).w = x.w := by
   unfold sendIsupport
   generalize chunks 10 (sortStrs (supportTokens cfg)) = l
   induction l generalizing x with
   | nil => rfl
   | cons t l ih => simp only [List.foldl_cons]; rw [ih]; rfl
 
-theorem processLusers_w (cfg : Cfg) (client : Str) (x : Ctx)
+theorem Reg.processLusers_w (cfg : Cfg) (client : Str) (x : Ctx)
     (h : x.w.invisibleCount ≤ x.w.users.length) : (processLusers cfg client x).w = x.w := by
   unfold processLusers
   have : ¬ x.w.invisibleCount > x.w.users.length := by omega
   simp only [this, ↓reduceIte, Ctx.reply_w]
 
-theorem processMotd_w (cfg : Cfg) (client : Str) (t : Option Str) (x : Ctx) :
+theorem Reg.processMotd_w (cfg : Cfg) (client : Str) (t : Option Str) (x : Ctx) :
     (processMotd cfg client t x).w = x.w := by
   unfold processMotd unsupported
   split <;> rfl
 
-theorem welcomeBurst_w (cfg : Cfg) (cn : Conn) (um : Str) (x : Ctx)
+theorem Reg.welcomeBurst_w (cfg : Cfg) (cn : Conn) (um : Str) (x : Ctx)
     (h : x.w.invisibleCount ≤ x.w.users.length) : (welcomeBurst cfg cn um x).w = x.w := by
   unfold welcomeBurst
   simp only [Ctx.reply_w, processMotd_w]
@@ -37,7 +37,7 @@ theorem welcomeBurst_w (cfg : Cfg) (cn : Conn) (um : Str) (x : Ctx)
   · rfl
   · rw [sendIsupport_w]; exact h
 
-theorem InvCore.invisible_le {w : World} (h : InvCore w) : w.invisibleCount ≤ w.users.length := by
+theorem Reg.invisible_le {w : World} (h : InvCore w) : w.invisibleCount ≤ w.users.length := by
   rw [h.invisibleCount]; exact List.length_filter_le _ _
 
 theorem invCore_sendIsupport {cfg : Cfg} {client : Str} {x : Ctx} (h : InvCore x.w) :
@@ -47,7 +47,7 @@ theorem invCore_sendIsupport {cfg : Cfg} {client : Str} {x : Ctx} (h : InvCore x
 /-- the guarded subtraction of LUSERS never underflows in an `InvCore` world -/
 theorem invCore_processLusers {cfg : Cfg} {client : Str} {x : Ctx} (h : InvCore x.w) :
     InvCore (processLusers cfg client x).w ∧ SameConnIds x.w (processLusers cfg client x).w := by
-  rw [processLusers_w _ _ _ h.invisible_le]; exact ⟨h, SameConnIds.refl _⟩
+  rw [processLusers_w _ _ _ (invisible_le h)]; exact ⟨h, SameConnIds.refl _⟩
 
 theorem invCore_processMotd {cfg : Cfg} {client : Str} {t : Option Str} {x : Ctx} (h : InvCore x.w) :
     InvCore (processMotd cfg client t x).w ∧ SameConnIds x.w (processMotd cfg client t x).w := by
@@ -55,7 +55,7 @@ theorem invCore_processMotd {cfg : Cfg} {client : Str} {t : Option Str} {x : Ctx
 
 theorem invCore_welcomeBurst {cfg : Cfg} {cn : Conn} {um : Str} {x : Ctx} (h : InvCore x.w) :
     InvCore (welcomeBurst cfg cn um x).w ∧ SameConnIds x.w (welcomeBurst cfg cn um x).w := by
-  rw [welcomeBurst_w _ _ _ _ h.invisible_le]; exact ⟨h, SameConnIds.refl _⟩
+  rw [welcomeBurst_w _ _ _ _ (invisible_le h)]; exact ⟨h, SameConnIds.refl _⟩
 
 theorem invCore_processAuthenticate {cfg : Cfg} {c : Nat} {x : Ctx} (h : InvCore x.w) :
     InvCore (processAuthenticate cfg c x).w ∧ SameConnIds x.w (processAuthenticate cfg c x).w :=
@@ -80,5 +80,523 @@ theorem invCore_processQuit {cfg : Cfg} {c : Nat} {x : Ctx} (h : InvCore x.w) (h
   unfold processQuit
   refine ⟨?_, setConn_conns_ids _ _⟩
   exact invCore_setConn_same h hm rfl rfl rfl rfl rfl rfl (fun _ => Or.inr rfl)
+
+/-! ### `authenticate` -/
+
+theorem Reg.authDecision_decided_nick {cfg : Cfg} {cn : Conn} {g r : Bool}
+    (h : authDecision cfg cn = .decided g r) : ∃ n, cn.nick = some n := by
+  unfold authDecision at h
+  split at h
+  · cases h
+  · split at h
+    · cases h
+    · exact ⟨_, by assumption⟩
+
+/-- the connection record between `add_user` and the ping waker -/
+def Reg.regConn1 (cn : Conn) (r : Bool) : Conn :=
+  { cn with authenticated := true, registered := r, hasSender := false, hasQuitSender := false }
+/-- the connection record after a successful registration -/
+def Reg.regConn (cn : Conn) (r : Bool) : Conn :=
+  { cn with authenticated := true, registered := r, hasSender := false, hasQuitSender := false,
+            hasPingSender := false }
+/-- the user record created by a successful registration -/
+def Reg.regUser (cfg : Cfg) (cn : Conn) (r : Bool) : User :=
+  { hostname := cn.hostname, name := cn.name.getD [], realname := cn.realname.getD [],
+    source := cn.source,
+    modes := { cfg.defaultUserModes with registered := cfg.defaultUserModes.registered || r },
+    history := { username := cn.name.getD [], hostname := cn.hostname, realname := cn.realname.getD [] },
+    owner := cn.id }
+
+/-- The three possible effects of `authenticate` (called for a live, unauthenticated connection of
+    an `InvCore` world) on the world: nothing; only the own record changes and stays
+    unauthenticated; or registration succeeds under the own, free nick. -/
+theorem Reg.authenticate_w_cases (cfg : Cfg) (c : Nat) (x : Ctx) (h : InvCore x.w) (hl : Live x.w c)
+    (hu : (x.conn c).authenticated = false) :
+    (authenticate cfg c x).w = x.w ∨
+    (∃ cn', (authenticate cfg c x).w = x.w.setConn cn' ∧
+        cn'.id = (x.conn c).id ∧ cn'.authenticated = false ∧ cn'.hasSender = (x.conn c).hasSender ∧
+        cn'.hasQuitSender = (x.conn c).hasQuitSender ∧ cn'.hasPingSender = (x.conn c).hasPingSender) ∨
+    (∃ nick r, (x.conn c).nick = some nick ∧ Map.lookup nick x.w.users = none ∧
+        (authenticate cfg c x).w =
+          ((x.w.setConn (regConn1 (x.conn c) r)).addUser nick (regUser cfg (x.conn c) r)).setConn
+            (regConn (x.conn c) r)) := by
+  obtain ⟨hm, hid⟩ := Ctx.conn_of_live hl
+  unfold authenticate
+  generalize x.conn c = cn at *
+  simp only []
+  cases hd : authDecision cfg cn with
+  | notReady => exact Or.inl rfl
+  | maskMismatch => exact Or.inl rfl
+  | decided good registered =>
+    obtain ⟨nick, hnick⟩ := authDecision_decided_nick hd
+    simp only []
+    cases good with
+    | false =>
+      simp only [Bool.false_eq_true, ↓reduceIte]
+      exact Or.inr (Or.inl ⟨_, rfl, rfl, rfl, rfl, rfl, rfl⟩)
+    | true =>
+      simp only [↓reduceIte, hnick]
+      by_cases hc : Map.contains nick x.w.users = true
+      · simp only [hc, Bool.not_true, Bool.false_eq_true, ↓reduceIte]
+        exact Or.inr (Or.inl ⟨_, rfl, rfl, rfl, rfl, rfl, rfl⟩)
+      · obtain ⟨r1, r2, r3⟩ := h.resources cn hm hu
+        have hc' : Map.contains nick x.w.users = false := by simpa using hc
+        have hfree := (Map.contains_false_iff _ _).mp hc'
+        simp only [hc', r1, r2, r3, Bool.not_false, Bool.not_true, Bool.or_self, Bool.false_eq_true,
+          ↓reduceIte]
+        refine Or.inr (Or.inr ⟨nick, registered, rfl, hfree, ?_⟩)
+        rw [Ctx.setConn_w, welcomeBurst_w]
+        · subst hid
+          unfold regConn1 regConn regUser
+          simp only [r3, hnick]
+          rfl
+        · simp only [Ctx.modifyW_w, Ctx.setConn_w, World.addUser_invisibleCount, World.addUser_users,
+            World.setConn_invisibleCount, World.setConn_users]
+          rw [Map.insert_of_lookup_none _ _ _ hfree]
+          have := (invisible_le h)
+          simp only [List.length_append, List.length_cons, List.length_nil]
+          split <;> omega
+
+theorem invCore_authenticate {cfg : Cfg} {c : Nat} {x : Ctx} (h : InvCore x.w) (hl : Live x.w c)
+    (hu : (x.conn c).authenticated = false) :
+    InvCore (authenticate cfg c x).w ∧ SameConnIds x.w (authenticate cfg c x).w := by
+  obtain ⟨hm, hid⟩ := Ctx.conn_of_live hl
+  rcases authenticate_w_cases cfg c x h hl hu with e | ⟨cn', e, h1, h2, h3, h4, h5⟩ |
+      ⟨nick, r, hn, hfree, e⟩
+  · rw [e]; exact ⟨h, SameConnIds.refl _⟩
+  · rw [e]
+    exact ⟨invCore_setConn_unauth h hm h1 hu h2 h3 h4 h5, setConn_conns_ids _ _⟩
+  · rw [e]
+    generalize x.conn c = cn at *
+    have e_conns : (((x.w.setConn (regConn1 cn r)).addUser nick (regUser cfg cn r)).setConn
+        (regConn cn r)).conns = (x.w.setConn (regConn cn r)).conns := by
+      rw [World.setConn_conns, World.addUser_conns, ← World.setConn_conns,
+        setConn_setConn x.w (regConn1 cn r) (regConn cn r) rfl]
+    constructor
+    · apply invCore_register h hm hu hfree (cn' := regConn cn r) (u := regUser cfg cn r) rfl rfl hn rfl rfl rfl
+        e_conns
+      · rw [World.setConn_users, World.addUser_users, World.setConn_users]
+      · rw [World.setConn_channels, World.addUser_channels, World.setConn_channels]
+      · rw [World.setConn_wallops, World.addUser_wallops, World.setConn_wallops]
+      · rw [World.setConn_invisibleCount, World.addUser_invisibleCount, World.setConn_invisibleCount]
+      · rw [World.setConn_operatorsCount, World.addUser_operatorsCount, World.setConn_operatorsCount]
+      · rw [World.setConn_users, World.setConn_maxUsers]; exact World.addUser_maxUsers _ _ _
+      · rw [World.setConn_connsCount, World.addUser_connsCount, World.setConn_connsCount]
+      · rw [World.setConn_panicked, World.addUser_panicked, World.setConn_panicked]; exact h.noPanic
+    · unfold SameConnIds
+      rw [e_conns]
+      exact setConn_conns_ids _ _
+
+/-- an unauthenticated connection updates its own record (staying unauthenticated, keeping its
+    resources) and then tries to register -/
+theorem Reg.invCore_setConn_authenticate {cfg : Cfg} {c : Nat} {x : Ctx} {cn' : Conn} (h : InvCore x.w)
+    (hl : Live x.w c) (hu : (x.conn c).authenticated = false) (hid : cn'.id = c)
+    (hu' : cn'.authenticated = false) (hr1 : cn'.hasSender = (x.conn c).hasSender)
+    (hr2 : cn'.hasQuitSender = (x.conn c).hasQuitSender)
+    (hr3 : cn'.hasPingSender = (x.conn c).hasPingSender) :
+    InvCore (authenticate cfg c (x.setConn cn')).w ∧
+      SameConnIds x.w (authenticate cfg c (x.setConn cn')).w := by
+  obtain ⟨hm, hcid⟩ := Ctx.conn_of_live hl
+  have h1 : InvCore (x.setConn cn').w :=
+    invCore_setConn_unauth h hm (by rw [hid, hcid]) hu hu' hr1 hr2 hr3
+  have hl1 : Live (x.setConn cn').w c := live_setConn cn' hl
+  have hc1 : (x.setConn cn').conn c = cn' := Ctx.conn_setConn_live hl hid
+  obtain ⟨h2, s2⟩ := invCore_authenticate (cfg := cfg) h1 hl1 (by rw [hc1]; exact hu')
+  exact ⟨h2, SameConnIds.trans (setConn_conns_ids _ _) s2⟩
+
+/-! ### CAP / PASS / USER / unregistered NICK -/
+
+theorem invCore_processCap {cfg : Cfg} {c : Nat} {sub : CapCommand} {caps : Option (List Str)} {x : Ctx}
+    (h : InvCore x.w) (hl : Live x.w c) :
+    InvCore (processCap cfg c sub caps x).w ∧ SameConnIds x.w (processCap cfg c sub caps x).w := by
+  obtain ⟨hm, hcid⟩ := Ctx.conn_of_live hl
+  unfold processCap
+  cases sub with
+  | LS =>
+    exact ⟨invCore_setConn_same h hm rfl rfl rfl rfl rfl rfl id, setConn_conns_ids _ _⟩
+  | LIST => exact ⟨h, SameConnIds.refl _⟩
+  | REQ =>
+    simp only []
+    have h1 : InvCore (x.w.setConn { x.conn c with capsNeg := true }) ∧
+        SameConnIds x.w (x.w.setConn { x.conn c with capsNeg := true }) :=
+      ⟨invCore_setConn_same h hm rfl rfl rfl rfl rfl rfl id, setConn_conns_ids _ _⟩
+    cases caps with
+    | none => exact h1
+    | some cs =>
+      simp only []
+      split
+      · simp only [Ctx.reply_w, Ctx.setConn_w]
+        rw [setConn_setConn _ _ _ (by split <;> rfl)]
+        refine ⟨?_, setConn_conns_ids _ _⟩
+        split
+        · exact h1.1
+        · exact invCore_setConn_same h hm rfl rfl rfl rfl rfl rfl id
+      · exact h1
+  | END =>
+    simp only []
+    by_cases ha : (x.conn c).authenticated = true
+    · simp only [ha, Bool.not_true, Bool.false_eq_true, ↓reduceIte]
+      exact ⟨invCore_setConn_same h hm rfl ha.symm rfl rfl rfl rfl id, setConn_conns_ids _ _⟩
+    · have ha' : (x.conn c).authenticated = false := by simpa using ha
+      simp only [ha', Bool.not_false, ↓reduceIte]
+      exact invCore_setConn_authenticate h hl ha' hcid rfl rfl rfl rfl
+
+theorem invCore_processPass {cfg : Cfg} {c : Nat} {pass : Str} {x : Ctx}
+    (h : InvCore x.w) (hl : Live x.w c) :
+    InvCore (processPass cfg c pass x).w ∧ SameConnIds x.w (processPass cfg c pass x).w := by
+  obtain ⟨hm, hcid⟩ := Ctx.conn_of_live hl
+  unfold processPass
+  by_cases ha : (x.conn c).authenticated = true
+  · simp only [ha, Bool.not_true, Bool.false_eq_true, ↓reduceIte]
+    exact ⟨h, SameConnIds.refl _⟩
+  · have ha' : (x.conn c).authenticated = false := by simpa using ha
+    simp only [ha', Bool.not_false, ↓reduceIte]
+    exact invCore_setConn_authenticate h hl ha' hcid rfl rfl rfl rfl
+
+theorem invCore_processUser {cfg : Cfg} {c : Nat} {username realname : Str} {x : Ctx}
+    (h : InvCore x.w) (hl : Live x.w c) :
+    InvCore (processUser cfg c username realname x).w ∧
+      SameConnIds x.w (processUser cfg c username realname x).w := by
+  obtain ⟨hm, hcid⟩ := Ctx.conn_of_live hl
+  unfold processUser
+  by_cases ha : (x.conn c).authenticated = true
+  · simp only [ha, Bool.not_true, Bool.false_eq_true, ↓reduceIte]
+    exact ⟨h, SameConnIds.refl _⟩
+  · have ha' : (x.conn c).authenticated = false := by simpa using ha
+    simp only [ha', Bool.not_false, ↓reduceIte]
+    exact invCore_setConn_authenticate h hl ha' hcid ha' rfl rfl rfl
+
+/-! ### NICK -/
+
+/-- the write-lock part of a registered NICK, as a function of the world -/
+def Reg.renameWorld (old new : Str) (user : User) (w : World) : World :=
+  let w := { w with users := Map.erase old w.users }
+  let w := renameInChannels old new user.channels w
+  let w := w.pushHistory old user.history
+  let w := { w with users := Map.insert new user w.users }
+  if KSet.mem old w.wallops then
+    { w with wallops := KSet.insert new (KSet.erase old w.wallops) }
+  else w
+
+/-- the rename branch of `processNick`, in terms of `renameWorld` -/
+theorem Reg.processNick_rename_eq {cfg : Cfg} {c : Nat} {nick : Str} {msg : Message} {x : Ctx}
+    {old : Str} {user : User}
+    (ha : (x.conn c).authenticated = true) (hnick : (x.conn c).nick = some old) (hne : nick ≠ old)
+    (hfree : Map.contains nick x.w.users = false) (hold : Map.lookup old x.w.users = some user) :
+    processNick cfg c nick msg x =
+      (((x.setConn ((x.conn c).setNick nick)).modifyW
+          (renameWorld old nick { user with source := ((x.conn c).setNick nick).source })).sendAll
+        (Map.keys ((x.setConn ((x.conn c).setNick nick)).modifyW
+          (renameWorld old nick { user with source := ((x.conn c).setNick nick).source })).w.users)
+        (msg.render (x.conn c).source)) := by
+  unfold processNick
+  have : (nick != old) = true := by simpa using hne
+  simp only [ha, Bool.not_true, Bool.false_eq_true, ↓reduceIte, hnick, this, hfree, Bool.not_false, hold]
+  rfl
+
+/-- `renameWorld` when every `unwrap` succeeds: the four re-keyed components -/
+theorem Reg.renameWorld_spec (old new : Str) (u : User) (w : World) (hnd : u.channels.Nodup)
+    (hok : ∀ ch, ch ∈ u.channels →
+      ∃ C C', Map.lookup ch w.channels = some C ∧ C.renameUser old new = some C') :
+    ∃ chans', renameWorld old new u w =
+        { w with users := Map.insert new u (Map.erase old w.users)
+                 channels := chans'
+                 wallops := renameIn old new w.wallops
+                 histories := (w.pushHistory old u.history).histories } ∧
+      Map.keys chans' = Map.keys w.channels ∧
+      ∀ ch, Map.lookup ch chans' =
+        if ch ∈ u.channels then (Map.lookup ch w.channels).bind (·.renameUser old new)
+        else Map.lookup ch w.channels := by
+  obtain ⟨chans', h1, h2, h3⟩ :=
+    renameInChannels_spec old new u.channels { w with users := Map.erase old w.users } hnd hok
+  refine ⟨chans', ?_, h2, h3⟩
+  unfold renameWorld
+  simp only [h1]
+  unfold renameIn World.pushHistory
+  simp only []
+  split <;> rfl
+
+/-- In an `InvCore` world the rename of the user of a live authenticated connection hits no
+    `unwrap`: description of the resulting world. -/
+theorem Reg.processNick_rename_w {cfg : Cfg} {c : Nat} {nick : Str} {msg : Message} {x : Ctx}
+    {old : Str} {user : User} (h : InvCore x.w)
+    (ha : (x.conn c).authenticated = true) (hnick : (x.conn c).nick = some old) (hne : nick ≠ old)
+    (hfree : Map.contains nick x.w.users = false) (hold : Map.lookup old x.w.users = some user) :
+    ∃ chans', (processNick cfg c nick msg x).w =
+        { x.w.setConn ((x.conn c).setNick nick) with
+            users := Map.insert nick { user with source := ((x.conn c).setNick nick).source }
+                      (Map.erase old x.w.users)
+            channels := chans'
+            wallops := renameIn old nick x.w.wallops
+            histories := (x.w.pushHistory old user.history).histories } ∧
+      Map.keys chans' = Map.keys x.w.channels ∧
+      ∀ ch, Map.lookup ch chans' =
+        if KSet.mem ch user.channels = true then
+          (Map.lookup ch x.w.channels).bind (·.renameUser old nick)
+        else Map.lookup ch x.w.channels := by
+  rw [processNick_rename_eq ha hnick hne hfree hold]
+  generalize x.conn c = cn at *
+  have hok : ∀ ch, ch ∈ user.channels →
+      ∃ C C', Map.lookup ch (x.w.setConn (cn.setNick nick)).channels = some C ∧
+        C.renameUser old nick = some C' := by
+    intro ch hch
+    obtain ⟨C, hC, hc⟩ := (h.memberSym old user ch hold).mp ((KSet.mem_iff _ _).mpr hch)
+    obtain ⟨chum, hchum⟩ := (Map.contains_iff _ _).mp hc
+    exact ⟨C, _, hC, renameUser_of_lookup hchum⟩
+  obtain ⟨chans', h1, h2, h3⟩ :=
+    renameWorld_spec old nick { user with source := (cn.setNick nick).source }
+      (x.w.setConn (cn.setNick nick)) (h.userChansNodup old user hold) hok
+  refine ⟨chans', ?_, h2, fun ch => by rw [h3 ch]; simp only [KSet.mem_iff]; rfl⟩
+  rw [Ctx.sendAll_w_eq]
+  · rw [Ctx.modifyW_w, Ctx.setConn_w, h1]; rfl
+  · intro n hn
+    exact (Map.contains_iff _ _).mpr ((Map.mem_keys_iff _ _).mp hn)
+
+/-- NICK, both before registration (set the nick, try to register) and after (rename). -/
+theorem invCore_processNick {cfg : Cfg} {c : Nat} {nick : Str} {msg : Message} {x : Ctx}
+    (h : InvCore x.w) (hl : Live x.w c) :
+    InvCore (processNick cfg c nick msg x).w ∧ SameConnIds x.w (processNick cfg c nick msg x).w := by
+  obtain ⟨hm, hcid⟩ := Ctx.conn_of_live hl
+  by_cases ha : (x.conn c).authenticated = true
+  · obtain ⟨old, user, hnick, hold, howner⟩ := h.authOwns _ hm ha
+    by_cases hne : nick = old
+    · have : processNick cfg c nick msg x = x := by
+        unfold processNick
+        simp only [ha, Bool.not_true, Bool.false_eq_true, ↓reduceIte, hnick, hne, bne_self_eq_false]
+      rw [this]; exact ⟨h, SameConnIds.refl _⟩
+    · by_cases hc : Map.contains nick x.w.users = true
+      · have : (processNick cfg c nick msg x).w = x.w := by
+          unfold processNick
+          have : (nick != old) = true := by simpa using hne
+          simp only [ha, Bool.not_true, Bool.false_eq_true, ↓reduceIte, hnick, this, hc, Ctx.reply_w]
+        rw [this]; exact ⟨h, SameConnIds.refl _⟩
+      · have hc' : Map.contains nick x.w.users = false := by simpa using hc
+        obtain ⟨chans', hW, hkeys, hch⟩ :=
+          processNick_rename_w (cfg := cfg) (msg := msg) h ha hnick hne hc' hold
+        rw [hW]
+        constructor
+        · exact invCore_rename h hm ha hnick hold ((Map.contains_false_iff _ _).mp hc')
+            (cn' := (x.conn c).setNick nick)
+            (user' := { user with source := ((x.conn c).setNick nick).source })
+            rfl ha rfl rfl rfl rfl rfl rfl rfl rfl rfl hkeys hch rfl rfl rfl rfl rfl h.noPanic
+        · exact setConn_conns_ids _ _
+  · have ha' : (x.conn c).authenticated = false := by simpa using ha
+    unfold processNick
+    simp only [ha', Bool.not_false, ↓reduceIte]
+    split
+    · exact invCore_setConn_authenticate h hl ha' hcid ha' rfl rfl rfl
+    · exact ⟨h, SameConnIds.refl _⟩
+
+/-! ### exported corollaries about `users` -/
+
+theorem Reg.processLusers_users (cfg : Cfg) (client : Str) (x : Ctx) :
+    (processLusers cfg client x).w.users = x.w.users := by
+  unfold processLusers
+  simp only [Ctx.reply_w]
+  split <;> rfl
+
+theorem Reg.welcomeBurst_users (cfg : Cfg) (cn : Conn) (um : Str) (x : Ctx) :
+    (welcomeBurst cfg cn um x).w.users = x.w.users := by
+  unfold welcomeBurst
+  simp only [Ctx.reply_w, processMotd_w, processLusers_users, sendIsupport_w]
+
+/-- `authenticate` (any state, any connection) either leaves `users` unchanged or inserts exactly one
+    entry, under the connection's own nick, which was free, with `owner = c` and no channels. -/
+theorem authenticate_users_grow_only (cfg : Cfg) (c : Nat) (x : Ctx) :
+    (authenticate cfg c x).w.users = x.w.users ∨
+    ∃ nick u, (x.conn c).nick = some nick ∧ Map.lookup nick x.w.users = none ∧ u.owner = c ∧
+      u.channels = [] ∧ (authenticate cfg c x).w.users = Map.insert nick u x.w.users := by
+  unfold authenticate
+  generalize x.conn c = cn
+  simp only []
+  split
+  · exact Or.inl rfl
+  · exact Or.inl rfl
+  · rename_i good registered _
+    cases good with
+    | false => exact Or.inl rfl
+    | true =>
+      simp only [↓reduceIte]
+      split
+      · exact Or.inl rfl
+      · rename_i nick hnick
+        split
+        · rename_i hc
+          have hfree : Map.lookup nick x.w.users = none :=
+            (Map.contains_false_iff _ _).mp (by simpa using hc)
+          split
+          · exact Or.inl rfl
+          · refine Or.inr ⟨nick, ?u, hnick, hfree, ?o, ?ch, ?e⟩
+            case e =>
+              split
+              · rw [Ctx.setConn_w, World.setConn_users, welcomeBurst_users, Ctx.modifyW_w,
+                  World.addUser_users]
+                rfl
+              · rw [Ctx.panic_w, World.panic_users, welcomeBurst_users, Ctx.modifyW_w,
+                  World.addUser_users]
+                rfl
+            case o => rfl
+            case ch => rfl
+        · exact Or.inl rfl
+
+/-- the effect of a registration command of connection `c` on the registered users: none, and the
+    connection is still unregistered; or exactly one new user under a free nick, owned by `c`,
+    which is now registered under that nick.  Channels are never touched. -/
+def RegEffect (c : Nat) (x y : Ctx) : Prop :=
+  y.w.channels = x.w.channels ∧
+  ((y.w.users = x.w.users ∧ (y.conn c).authenticated = false) ∨
+   (∃ nick u, Map.lookup nick x.w.users = none ∧ u.owner = c ∧ u.channels = [] ∧
+      y.w.users = Map.insert nick u x.w.users ∧
+      (y.conn c).authenticated = true ∧ (y.conn c).nick = some nick))
+
+/-- a registration that does not complete has no effect on `users` -/
+theorem RegEffect.users_eq_of_unauth {c : Nat} {x y : Ctx} (h : RegEffect c x y)
+    (hu : (y.conn c).authenticated = false) : y.w.users = x.w.users := by
+  rcases h.2 with ⟨e, _⟩ | ⟨_, _, _, _, _, _, ha, _⟩
+  · exact e
+  · rw [hu] at ha; cases ha
+
+/-- in any case every registered user keeps its record -/
+theorem RegEffect.lookup_preserved {c : Nat} {x y : Ctx} (h : RegEffect c x y) {n : Str} {u : User}
+    (hn : Map.lookup n x.w.users = some u) : Map.lookup n y.w.users = some u := by
+  rcases h.2 with ⟨e, _⟩ | ⟨nick, u', hfree, _, _, e, _, _⟩
+  · rw [e]; exact hn
+  · rw [e, Map.lookup_insert]
+    split
+    · rename_i e2; subst e2; rw [hfree] at hn; cases hn
+    · exact hn
+
+theorem Reg.regEffect_refl_of_unauth {c : Nat} {x y : Ctx} (hw : y.w = x.w)
+    (hu : (x.conn c).authenticated = false) : RegEffect c x y := by
+  have : y.conn c = x.conn c := by unfold Ctx.conn; rw [hw]
+  exact ⟨by rw [hw], Or.inl ⟨by rw [hw], by rw [this]; exact hu⟩⟩
+
+theorem Reg.authenticate_regEffect {cfg : Cfg} {c : Nat} {x : Ctx} (h : InvCore x.w) (hl : Live x.w c)
+    (hu : (x.conn c).authenticated = false) : RegEffect c x (authenticate cfg c x) := by
+  obtain ⟨hm, hid⟩ := Ctx.conn_of_live hl
+  rcases authenticate_w_cases cfg c x h hl hu with e | ⟨cn', e, h1, h2, h3, h4, h5⟩ |
+      ⟨nick, r, hn, hfree, e⟩
+  · exact regEffect_refl_of_unauth e hu
+  · have hc : (authenticate cfg c x).conn c = cn' :=
+      Ctx.conn_of_conn? (by rw [e]; exact conn?_setConn_live hl (by rw [h1, hid]))
+    exact ⟨by rw [e]; rfl, Or.inl ⟨by rw [e]; rfl, by rw [hc]; exact h2⟩⟩
+  · have hl1 : Live ((x.w.setConn (regConn1 (x.conn c) r)).addUser nick (regUser cfg (x.conn c) r)) c := by
+      apply Live.of_same _ hl
+      unfold SameConnIds
+      rw [World.addUser_conns]
+      exact setConn_conns_ids _ _
+    have hc : (authenticate cfg c x).conn c = regConn (x.conn c) r :=
+      Ctx.conn_of_conn? (by rw [e]; exact conn?_setConn_live hl1 hid)
+    refine ⟨by rw [e, World.setConn_channels, World.addUser_channels, World.setConn_channels], Or.inr
+      ⟨nick, regUser cfg (x.conn c) r, hfree, hid, rfl, ?_, by rw [hc]; rfl, by rw [hc]; exact hn⟩⟩
+    rw [e, World.setConn_users, World.addUser_users, World.setConn_users]
+
+theorem Reg.setConn_authenticate_regEffect {cfg : Cfg} {c : Nat} {x : Ctx} {cn' : Conn} (h : InvCore x.w)
+    (hl : Live x.w c) (hu : (x.conn c).authenticated = false) (hid : cn'.id = c)
+    (hu' : cn'.authenticated = false) (hr1 : cn'.hasSender = (x.conn c).hasSender)
+    (hr2 : cn'.hasQuitSender = (x.conn c).hasQuitSender)
+    (hr3 : cn'.hasPingSender = (x.conn c).hasPingSender) :
+    RegEffect c x (authenticate cfg c (x.setConn cn')) := by
+  obtain ⟨hm, hcid⟩ := Ctx.conn_of_live hl
+  have h1 : InvCore (x.setConn cn').w :=
+    invCore_setConn_unauth h hm (by rw [hid, hcid]) hu hu' hr1 hr2 hr3
+  have hl1 : Live (x.setConn cn').w c := live_setConn cn' hl
+  have hc1 : (x.setConn cn').conn c = cn' := Ctx.conn_setConn_live hl hid
+  exact authenticate_regEffect (cfg := cfg) h1 hl1 (by rw [hc1]; exact hu')
+
+theorem Reg.setConn_regEffect {c : Nat} {x : Ctx} {cn' : Conn} (hl : Live x.w c) (hid : cn'.id = c)
+    (hu' : cn'.authenticated = false) : RegEffect c x (x.setConn cn') :=
+  ⟨rfl, Or.inl ⟨rfl, by rw [Ctx.conn_setConn_live hl hid]; exact hu'⟩⟩
+
+/-- For an unauthenticated live connection in an `InvCore` world, NICK / USER / PASS / CAP change
+    `users` only by completing the registration (`RegEffect`): if the connection is still
+    unregistered afterwards, no registered user is affected (`RegEffect.users_eq_of_unauth`), and in
+    any case every registered user keeps its record (`RegEffect.lookup_preserved`). -/
+theorem unregistered_nick_user_pass_cap_keep_users {cfg : Cfg} {c : Nat} {x : Ctx}
+    (h : InvCore x.w) (hl : Live x.w c) (hu : (x.conn c).authenticated = false)
+    (nick : Str) (msg : Message) (username realname pass : Str) (sub : CapCommand)
+    (caps : Option (List Str)) :
+    RegEffect c x (processNick cfg c nick msg x) ∧
+    RegEffect c x (processUser cfg c username realname x) ∧
+    RegEffect c x (processPass cfg c pass x) ∧
+    RegEffect c x (processCap cfg c sub caps x) := by
+  obtain ⟨hm, hcid⟩ := Ctx.conn_of_live hl
+  refine ⟨?_, ?_, ?_, ?_⟩
+  · unfold processNick
+    simp only [hu, Bool.not_false, ↓reduceIte]
+    split
+    · exact setConn_authenticate_regEffect h hl hu hcid hu rfl rfl rfl
+    · exact regEffect_refl_of_unauth rfl hu
+  · unfold processUser
+    simp only [hu, Bool.not_false, ↓reduceIte]
+    exact setConn_authenticate_regEffect h hl hu hcid hu rfl rfl rfl
+  · unfold processPass
+    simp only [hu, Bool.not_false, ↓reduceIte]
+    exact setConn_authenticate_regEffect h hl hu hcid rfl rfl rfl rfl
+  · unfold processCap
+    cases sub with
+    | LS => exact setConn_regEffect hl hcid hu
+    | LIST => exact regEffect_refl_of_unauth rfl hu
+    | REQ =>
+      simp only []
+      have h1 : RegEffect c x (x.setConn { x.conn c with capsNeg := true }) :=
+        setConn_regEffect hl hcid hu
+      cases caps with
+      | none => exact h1
+      | some cs =>
+        simp only []
+        split
+        · have : RegEffect c x ((x.setConn { x.conn c with capsNeg := true }).setConn
+              (if cs.isEmpty then { x.conn c with capsNeg := true }
+               else { x.conn c with capsNeg := true, multiPrefix := true })) := by
+            refine ⟨rfl, Or.inl ⟨rfl, ?_⟩⟩
+            rw [Ctx.conn_setConn_live (live_setConn _ hl) (by split <;> exact hcid)]
+            split <;> exact hu
+          exact this
+        · exact h1
+    | END =>
+      simp only [hu, Bool.not_false, ↓reduceIte]
+      exact setConn_authenticate_regEffect h hl hu hcid rfl rfl rfl rfl
+
+/-- exact effect of a NICK of a registered connection on `users`: nothing, or the own entry moves
+    from `old` to the free `nick` with only `source` updated -/
+theorem registered_nick_users {cfg : Cfg} {c : Nat} {nick : Str} {msg : Message} {x : Ctx}
+    (h : InvCore x.w) (hl : Live x.w c) (ha : (x.conn c).authenticated = true) :
+    ∃ old user, (x.conn c).nick = some old ∧ Map.lookup old x.w.users = some user ∧ user.owner = c ∧
+      ((processNick cfg c nick msg x).w.users = x.w.users ∨
+       (nick ≠ old ∧ Map.lookup nick x.w.users = none ∧
+        (processNick cfg c nick msg x).w.users =
+          Map.insert nick { user with source := ((x.conn c).setNick nick).source }
+            (Map.erase old x.w.users))) := by
+  obtain ⟨hm, hcid⟩ := Ctx.conn_of_live hl
+  obtain ⟨old, user, hnick, hold, howner⟩ := h.authOwns _ hm ha
+  refine ⟨old, user, hnick, hold, by rw [howner, hcid], ?_⟩
+  by_cases hne : nick = old
+  · left
+    unfold processNick
+    simp only [ha, Bool.not_true, Bool.false_eq_true, ↓reduceIte, hnick, hne, bne_self_eq_false]
+  · by_cases hc : Map.contains nick x.w.users = true
+    · left
+      unfold processNick
+      have : (nick != old) = true := by simpa using hne
+      simp only [ha, Bool.not_true, Bool.false_eq_true, ↓reduceIte, hnick, this, hc, Ctx.reply_w]
+    · have hc' : Map.contains nick x.w.users = false := by simpa using hc
+      obtain ⟨chans', hW, _, _⟩ :=
+        processNick_rename_w (cfg := cfg) (msg := msg) h ha hnick hne hc' hold
+      exact Or.inr ⟨hne, (Map.contains_false_iff _ _).mp hc', by rw [hW]⟩
+
+/-- the rename changes `users` only at the keys `old` and `new` -/
+theorem registered_nick_only_own_key {cfg : Cfg} {c : Nat} {nick old : Str} {msg : Message} {x : Ctx}
+    (h : InvCore x.w) (hl : Live x.w c) (ha : (x.conn c).authenticated = true)
+    (hnick : (x.conn c).nick = some old) :
+    ∀ n, n ≠ old → n ≠ nick →
+      Map.lookup n (processNick cfg c nick msg x).w.users = Map.lookup n x.w.users := by
+  intro n h1 h2
+  obtain ⟨old', user, hnick', _, _, hcase⟩ :=
+    registered_nick_users (cfg := cfg) (nick := nick) (msg := msg) h hl ha
+  rw [hnick] at hnick'; cases hnick'
+  rcases hcase with e | ⟨_, _, e⟩
+  · rw [e]
+  · rw [e, Map.lookup_rekey, if_neg (fun e => h2 e.symm), if_neg (fun e => h1 e.symm)]
 
 end Irc
